@@ -99,6 +99,17 @@ def check_estimate(ctx, check, sig, got, resid, dof, method, wit):
         ctx.fail(check, sig, f'{method}: shrinkage active (lambda={lam}) but estimate not positive definite',
                  wit(got=got))
         return False
+    # with more channels than residual degrees of freedom the sample covariance is singular; on continuous data its
+    # distance to the target and its sampling error are both non-zero at every magnitude, so the shrinkage is active
+    # (intensity > 0; with only two samples, rank 1, all outer products coincide and the intensity is legitimately 0) and
+    # the estimate positive definite -- an estimate equal to the singular sample covariance means the shrinkage was skipped
+    if lam is not None and method == 'shrinkage_eye' and sig.get('kind') == 'residuals' and \
+            p > np.linalg.matrix_rank(resid) >= 3 and sig.get('values') in ('normal', 'correlated', 'wide_small') \
+            and np.all(np.diag(s) > 1e-12 * scale) and lam <= 1e-9:
+        ctx.fail(check, dict(sig, what='shrinkage_skipped'), f'{method}: singular sample covariance ({p} channels, rank '
+                 f'{np.linalg.matrix_rank(resid)}) but shrinkage intensity {lam}: the estimate is the singular sample '
+                 f'covariance itself (data magnitude {scale ** 0.5:.1e})', wit(got=got))
+        return False
     ctx.count('lambda_recovered' if lam is not None else 'target_equals_sample')
     return True
 
@@ -117,6 +128,12 @@ def check_prec(ctx, sig, prec, cov, wit):
 
 
 def gen_resid(rng, n=None, p=None):
+    if n is None and p is None and rng.integers(6) == 0:
+        # more channels than samples at a small physical magnitude: the sample covariance is singular, only an active
+        # shrinkage makes the estimate invertible (and the returned precision its inverse)
+        n = int(rng.integers(3, 7))
+        p = n + int(rng.integers(0, 5))
+        return rng.standard_normal((n, p)) * 10.0 ** float(gen.pick(rng, [-6, -5, -4])), 'wide_small'
     n = n or int(rng.integers(2, 25))
     p = p or int(rng.integers(1, 10))
     kind = gen.pick(rng, ['normal', 'normal', 'smallint_f', 'correlated'])
@@ -125,6 +142,8 @@ def gen_resid(rng, n=None, p=None):
         x = rng.standard_normal((n, p)) @ a + rng.uniform(-3, 3, size=p)
     else:
         x = gen.values(rng, (n, p), kind)
+    # physical units: microvolts stored in volts, femtotesla in tesla, ... the estimators are scale-equivariant
+    x = x * 10.0 ** float(gen.pick(rng, [-7, -4, 0, 0, 0, 3]))
     return x, kind
 
 
@@ -256,6 +275,8 @@ def make_dataset(rng, balanced, n_cond=None, reps=None, p=None):
     meas = gen.values(rng, (len(idx), p), kind)
     cm = rng.standard_normal((n_cond, p)) * 3
     meas = meas + (cm[idx] if kind == 'normal' else np.round(cm[idx]).astype(meas.dtype))
+    if kind == 'normal':
+        meas = meas * 10.0 ** float(gen.pick(rng, [-7, -4, 0, 0, 0, 3]))
     return dict(meas=meas, obs=obs, idx=idx, counts=counts, n_cond=n_cond, p=p, lk=lk, kind=kind,
                 container=gen.pick(rng, gen.CONTAINERS))
 
